@@ -504,6 +504,22 @@ ev_spec_print(struct ev_spec *spec, struct emu_ev *ev, char *outbuf, int outlen)
 		return -1;
 	}
 
+	/* The arguments are read at the declared offsets: the stored payload
+	 * must be at least as long as the declared one */
+	if (spec->nargs > 0) {
+		if (ev->payload == NULL) {
+			err("event %s has no payload, expected %zu bytes",
+					spec->mcv, spec->payload_size);
+			return -1;
+		}
+
+		if (ev->has_payload && ev->payload_size < spec->payload_size) {
+			err("event %s has %zu bytes of payload, expected at least %zu",
+					spec->mcv, ev->payload_size, spec->payload_size);
+			return -1;
+		}
+	}
+
 	struct cursor c = {
 		.in = spec->description,
 		.out = outbuf,
